@@ -18,6 +18,7 @@ Proof.
   - reflexivity.
   - now rewrite !run_stream_fixed_spec.
   - reflexivity.
+  - reflexivity.
 Qed.
 
 Theorem agree_fixed_spec c : agree fixed true c = true -> spec_ok c = true.
@@ -31,7 +32,22 @@ Proof.
   apply N.eqb_eq in H. now rewrite <- H.
 Qed.
 
-Theorem spec_ok_no_panic c : spec_ok c = true -> o_outcome c <> 2%N.
+Lemma pages_match_no_panic : forall ps pred,
+  Forall (fun r => snd r <> OPanic) pred -> pages_match pred ps = true ->
+  forallb (fun p => negb (N.eqb (po_outcome p) 2)) ps = true.
+Proof.
+  induction ps as [|p ps IH]; intros [|[es o] pred] HF H; cbn in *; try discriminate; [reflexivity|].
+  inversion HF as [|? ? Ho HF']; subst. cbn in Ho.
+  repeat (apply andb_true_iff in H; destruct H as [H ?]).
+  apply N.eqb_eq in H. rewrite <- H. rewrite (IH pred HF') by assumption.
+  destruct o; cbn; congruence.
+Qed.
+
+Theorem spec_ok_no_panic c : spec_ok c = true ->
+  match c_mode c with
+  | MSource => forallb (fun p => negb (N.eqb (po_outcome p) 2)) (c_pages c) = true
+  | _ => o_outcome c <> 2%N
+  end.
 Proof.
   unfold spec_ok. intros H.
   assert (S : forall ts eof, fst (fst (run_spec ts eof)) <> 2%N).
@@ -51,6 +67,9 @@ Proof.
     destruct (proxy_page fixed true (fuel_for (c_toks c)) (c_eof c) (c_toks c)) as [r passed]. cbn in P.
     repeat (apply andb_true_iff in H; destruct H as [H ?]).
     apply N.eqb_eq in H. rewrite <- H. destruct r; cbn; congruence.
+  - eapply pages_match_no_panic; [|exact H]. rewrite read_pages_fresh.
+    apply Forall_forall. intros r Hr. apply in_map_iff in Hr. destruct Hr as (p & <- & _).
+    apply (parse_stream_nopanic fixed fixed_chk).
 Qed.
 
 (** the fuel the evaluator gives the model, [S (length tokens)], is enough: no prediction of any
